@@ -89,7 +89,11 @@ func randomScript(r *rand.Rand, pills bool) *scriptSpec {
 			x := r.Intn(100)
 			switch {
 			case x < 14 && n < 100:
-				b = append(b, item{Kind: itCrash, ID: ids.next()})
+				k := itCrash
+				if r.Intn(5) == 0 {
+					k = itCrashI
+				}
+				b = append(b, item{Kind: k, ID: ids.next()})
 			case x < 20 && pills && (s == nseg-1 || r.Intn(3) == 0):
 				k := itPoison
 				if r.Intn(3) == 0 {
@@ -133,6 +137,9 @@ func randomScript(r *rand.Rand, pills bool) *scriptSpec {
 	}
 	if r.Intn(6) == 0 {
 		spec.Children = 1 + r.Intn(3)
+	}
+	if r.Intn(5) == 0 {
+		spec.CtxCancel = 1 + r.Intn(2)
 	}
 	return spec
 }
@@ -350,7 +357,7 @@ type c06Case struct {
 func c06Grid(tier string) []c06Case {
 	var grid []c06Case
 	for maxR := 0; maxR <= 4; maxR++ {
-		for _, pl := range []string{"batch", "fresh", "replay", "started", "init"} {
+		for _, pl := range []string{"batch", "fresh", "replay", "started", "init", "internal"} {
 			for _, bl := range []string{"empty", "backlog", "pill"} {
 				for _, ch := range []int{0, 2} {
 					for _, ib := range []int{1, 1024} {
@@ -404,6 +411,21 @@ func c06Spec(g c06Case, r *rand.Rand) *scriptSpec {
 		}
 		bodies = append(bodies, msgs(ids, 2))
 		spec.Segments = buildSegments(ids, bodies...)
+	case "internal":
+		// the budget is used up, then an InternalError restart (which does not count), then the exhausting panic
+		var b []item
+		b = append(b, msgs(ids, 1)...)
+		for i := 0; i < g.maxR; i++ {
+			b = append(b, crash())
+		}
+		b = append(b, item{Kind: itCrashI, ID: ids.next()})
+		if g.inbox == 1 {
+			b = append(b, item{Kind: itCrashI, ID: ids.next()})
+		}
+		b = append(b, msgs(ids, 1)...)
+		b = append(b, crash())
+		b = append(b, tail...)
+		spec.Segments = buildSegments(ids, b, msgs(ids, 2))
 	case "started", "init":
 		// maxR user crashes use the budget up... the restarted incarnation then fails in its lifecycle handler
 		var b []item
@@ -435,7 +457,7 @@ func init() {
 	register(&prop{
 		id:    "C06",
 		level: "fault_enumeration",
-		rule: "enumerated grid: MaxRestarts 0..4 x placement of the budget-exhausting panic {first batch, fresh batch, replay of the restart buffer, Started handler, Initialized handler} x inbox content at that moment {empty, backlog, backlog with a poison pill} x children {0,2} x inbox size {1,1024}; " +
+		rule: "enumerated grid: MaxRestarts 0..4 x placement of the budget-exhausting panic {first batch, fresh batch, replay of the restart buffer, Started handler, Initialized handler, behind an InternalError restart that must not count} x inbox content at that moment {empty, backlog, backlog with a poison pill} x children {0,2} x inbox size {1,1024}; " +
 			"checked against the sequential model: ActorRestartedEvent count <= MaxRestarts with counts 1..k, incarnations = restarts+1, exactly one ActorMaxRestartsExceededEvent, one final Stopped (children first, each once), unregistered, a later send dead-letters exactly once, process and bystander alive; distinct by grid cell",
 		assumptions: []string{"same reference model and gate technique as C04", "every case runs in a child process: a dying process is attributed to the open case"},
 		modes: func(tier string, seed int64) []modeSpec {
